@@ -96,16 +96,16 @@ def compare_tables(rep, run, select=lambda cid: True, what=("gen", "states", "ro
                 break
     return n
 
-def obligations_validate(rep, run, cids, name="validate", extra_import=None):
+def obligations_validate(rep, run, cids, name="validate", extra_import=None, prelude="", suffix="", closure_order=False):
     """kernel-checked: validate g sts tbl = true on the dump of the REAL code, one lemma per instance"""
     if not cids: return {}
     # pass 1: evaluate all instances at once to learn which hold
-    lines = [coqgen.HEADER + (f"Require Import {extra_import}.\n" if extra_import else "")]
+    lines = [coqgen.HEADER + (f"Require Import {extra_import}.\n" if extra_import else "") + prelude]
     for k in cids:
-        lines.append(f"Definition g{k} := {coqgen.grammar_term(run.gis[k])}.\nDefinition s{k} := {coqgen.states_term(run.real[k]['states'])}.\nDefinition t{k} := {coqgen.table_term(run.real[k]['rows'])}.")
+        lines.append(f"Definition g{k} := {coqgen.grammar_term(run.gis[k])}.\nDefinition s{k} := {coqgen.states_term(coqgen.closure_order(run.gis[k], run.real[k]['states']) if closure_order else run.real[k]['states'])}.\nDefinition t{k} := {coqgen.table_term(run.real[k]['rows'])}.")
     lines.append("Definition all_results := [" + "; ".join(f"({k}, {name} g{k} s{k} t{k})" for k in cids) + "].")
     lines.append("Eval vm_compute in all_results.")
-    path = f"{COQ}/Cases_{rep.pid}_eval.v"
+    path = f"{COQ}/Cases_{rep.pid}{suffix}_eval.v"
     open(path, "w").write("\n".join(lines) + "\n")
     ok, out, dt = coqc_file(os.path.basename(path), timeout=2400)
     res = {k: (v == "true") for k, v in re.findall(r"\(\s*(\d+),\s*(true|false)\)", out)}
@@ -115,10 +115,10 @@ def obligations_validate(rep, run, cids, name="validate", extra_import=None):
     lem = lines[:-2]
     for k in cids:
         lem.append(f"Lemma ob_{k} : {name} g{k} s{k} t{k} = {'true' if res[k] else 'false'}. Proof. vm_compute. reflexivity. Qed.")
-    path2 = f"{COQ}/Cases_{rep.pid}.v"
+    path2 = f"{COQ}/Cases_{rep.pid}{suffix}.v"
     open(path2, "w").write("\n".join(lem) + "\n")
     ok2, out2, dt2 = coqc_file(os.path.basename(path2), timeout=2400)
-    rep.notes["obligation_files"] = [path2]; rep.notes["obligation_seconds"] = round(dt + dt2, 1)
+    rep.notes.setdefault("obligation_files", []).append(path2); rep.notes["obligation_seconds"] = round(rep.notes.get("obligation_seconds", 0) + dt + dt2, 1)
     if not ok2: rep.oblige("instance-lemmas-compile", False, out2[-500:])
     for f in (path, path2):
         for ext in (".vo", ".vok", ".vos", ".glob"):
@@ -381,13 +381,33 @@ def check_C05(rep):
         if had:
             nontriv += 1
             if len(samples) < 2: samples.append({"grammar": run.meta[cid]["rules"], "prec": run.meta[cid]["prec"], "rule_prec": run.meta[cid]["rule_prec"], "sr_cells": len([1 for v in conf.values() if v == "sr"])})
+    # per-instance obligation: the REAL table (conflicts resolved) passes validate_resolved, the hypothesis of C05_grouping;
+    # tables with reduce/reduce cells or the hidden accept/reduce clash are outside that theorem
+    cands = [k for k in sorted(run.real, key=int) if run.real[k]["gen"] == "ok" and not run.real[k]["skipped"] and not d12_cells(run, k)
+             and not any(k_ == 5 for row in run.real[k]["rows"] for (k_, a_, sr_) in row)]
+    res = obligations_validate(rep, run, cands, name="validate_resolved", extra_import="Ctpg.Valid.LRResolved")
+    grouped = 0
+    for k in cands:
+        if k not in res: continue
+        rep.oblige(f"validate_resolved(real table of case {k})", res[k], f"grammar {run.meta[k]['rules']} prec {run.meta[k]['prec']} rule_prec {run.meta[k]['rule_prec']}: the real table is not the LR(1) automaton with every S/R cell decided by the documented rule")
+        if not res[k] or run.uses_error(k): continue
+        # property-level oracle on the trees the real parser built: every operator node groups as the documented rule says
+        c = run.gis[k]
+        for j, ri in enumerate(run.real[k]["inputs"]):
+            if not ri["res"].startswith("VALUE "): continue
+            rep.cov["evaluations"] += 1
+            bad = O.ill_grouped(c, ri["res"][6:].split(" BUFFERFAULT")[0], sr_expected)
+            if bad is None: continue
+            if bad: rep.fail(kind="operator-expression-grouped-against-precedence-or-associativity", case=k, input=run.gis[k]["inputs"][j], tree=ri["res"][6:200], node=bad, grammar=run.meta[k])
+            else: grouped += 1
+    rep.notes["trees_with_operator_nodes_checked"] = grouped
     run3 = h3_stage(rep)
     if run3 is not None:
         rep.notes["dsl_parsers"] = h3_rule_analysis(rep, run3, ["TP", "RP"], "rule-precedence")
         h3_tables_and_runs(rep, run3, tables=True, runs=True)
     rep.cov["distinct_nontrivial"] = nontriv
     rep.cov["traces_validated_against_impl"] = len(run.real)
-    rep.cov["rule"] = "grammars with shift/reduce conflicts under random precedence/associativity assignments (terms: -2..3, all three associativities; explicit rule precedences incl. 0 and negatives): every S/R cell of the real table is compared with the documented rule evaluated on the precedence data; non-trivial = distinct (grammar, assignment) with at least one S/R cell"
+    rep.cov["rule"] = "grammars with shift/reduce conflicts under random precedence/associativity assignments (terms: -2..3, all three associativities; explicit rule precedences incl. 0 and negatives), among them a family of operator grammars (1-3 binary operators, atom, optional parentheses / unary operator): every S/R cell of the real table is compared with the documented rule evaluated on the precedence data; every real table without R/R cell must pass validate_resolved (kernel-checked, the hypothesis of C05_grouping); every tree the real parser returns on these grammars is checked node by node for grouping by the documented rule; non-trivial = distinct (grammar, assignment) with at least one S/R cell"
     rep.cov["samples"] = samples
     return rep
 
@@ -945,6 +965,12 @@ def check_C06(rep):
         res = obligations_validate(rep, run, cands, name="safe_ok", extra_import="Ctpg.Valid.LRSafe")
         for k in cands:
             if k in res: rep.oblige(f"safe_ok(real table of case {k})", res[k], f"grammar {run.meta[k]['rules']}")
+        # per-instance obligation for termination on EVERY input (C06_terminates_on_every_input): the real table passes term_checks
+        # (validate + justified lookaheads + productive grammar); grammars with a reachable non-productive nonterminal are outside the theorem
+        res2 = obligations_validate(rep, run, cands, name="term_or_unproductive", extra_import="Ctpg.Valid.LRProductive", suffix="_term", closure_order=True,
+                                    prelude="Definition term_or_unproductive g s t := orb (term_checks g s t) (negb (productiveb g)).\n")
+        for k in cands:
+            if k in res2: rep.oblige(f"term_checks(real table of case {k}) or grammar not productive", res2[k], f"grammar {run.meta[k]['rules']}")
     run2 = h2_stage(rep)
     if run2 is not None:
         for k in sorted(run2.real, key=int):
